@@ -184,7 +184,11 @@ for name, f, share, tier, kw, goals, parts in [
      ("reiteration_or_retry",), _parts2([("r0.D.want", 3), ("r1.D.want", 3)])),
     ("recurrent_two_charts", lambda: C.rec_simple(1, True), "classes", "quick", {"dur_nodes": {"M", "D"}},
      ("reiteration_or_retry",), _parts2([("r0.D.want", 3), ("r1.D.want", 3)])),
-    ("switch_shared_chart", lambda: C.switch_basic(False, True), "chart", "thorough", {"dur_nodes": {"S", "X", "Y"}}, (),
+    ("switch_shared_chart", lambda: C.switch_basic(False, False), "chart", "quick", {"dur_nodes": {"S", "X", "Y"}}, (),
+     _parts2([("r0.S.label0", 2), ("r1.S.label0", 2)])),
+    ("switch_shared_case_shared_chart", C.switch_shared_case, "chart", "quick", {"dur_nodes": {"X"}}, (),
+     _parts2([("r0.S.label0", 2), ("r1.S.label0", 2)])),
+    ("switch_fallible_shared_chart", lambda: C.switch_basic(False, True), "chart", "thorough", {"dur_nodes": {"S", "X", "Y"}}, (),
      _parts2([("r0.S.label0", 2), ("r1.S.label0", 2), ("r0.X.kind0", 2), ("r1.X.kind0", 2)])),
     ("recurrent_inner_shared_chart", lambda: C.rec_inner_start(1, True), "chart", "thorough",
      {"dur_nodes": {"S", "M", "D", "Side"}}, (), _parts2([("r0.D.want", 3), ("r1.D.want", 3)])),
